@@ -123,6 +123,46 @@ def scenario(task):
     return out
 
 
+def partial_transfer(task):
+    """An index that create_cache=True produced must be transparent -- also when that call met an image whose transfer was still
+    incomplete (a cut at a record boundary: every record present is well formed): the call fails, and once the file is complete
+    use_cache=True equals use_cache=False."""
+    import glob
+    import os
+
+    import ceos_alos2
+
+    from harness import checklib as cl, product, project
+
+    for f in glob.glob(os.path.join(os.environ["XDG_CACHE_HOME"], "**", "*.index"), recursive=True):
+        os.remove(f)
+    b = product.build_product(level=task["level"], images=(("HH", None, 6, 3), ("HV", None, 5, 2)), seed=task["seed"])
+    d = b.write(os.path.join(cl.fresh_dir("part_"), "product"))
+    out = {"task": task, "bad": []}
+    im = b.images[task["img"]]
+    reclen = im["prefix"] + im["p"] * im["bps"]
+    full = b.files[im["name"]]
+    with open(os.path.join(d, im["name"]), "wb") as f:
+        f.write(full[: 720 + task["k"] * reclen])
+    try:
+        ceos_alos2.open_alos2(d, backend_options={"create_cache": True, "records_per_chunk": task["rpc"]})
+        out["bad"].append(("partial-accepted", f"open(create_cache=True) returned a tree for an image holding {task['k']} of {im['n']} records"))
+    except BaseException:  # noqa: B902 -- expected
+        pass
+    with open(os.path.join(d, im["name"]), "wb") as f:
+        f.write(full)
+    try:
+        ref = project.fingerprint(ceos_alos2.open_alos2(d, backend_options={"use_cache": False}))
+        got = project.fingerprint(ceos_alos2.open_alos2(d, backend_options={"use_cache": True}))
+        dd = project.diff(ref, got)
+        if dd:
+            out["bad"].append(("partial-transfer-index-differs", f"after the transfer completed, use_cache=True differs from use_cache=False: {dd[:2]}"))
+    except BaseException as e:  # noqa: B902
+        out["bad"].append(("partial-transfer-index-poisons", f"create_cache=True met the image while {task['k']} of {im['n']} records had arrived (rpc {task['rpc']}); after the "
+                           f"transfer completed use_cache=True raises {type(e).__name__}: {str(e)[:140]} (use_cache=False works)"))
+    return out
+
+
 def body(chk):
     from harness import tlc
     from harness import layout as L
@@ -151,6 +191,15 @@ def body(chk):
                  dict(file="image", kind="processed", n=4, ndata=6, bps=2), dict(file="image", kind="processed", n=3, ndata=4, bps=2),
                  dict(file="image", kind="signal", n=4, ndata=24, bps=8), dict(file="image", kind="signal", n=3, ndata=16, bps=8),
                  dict(file="volume", nfp=4)])
+    L.instances([dict(file="image", kind="processed", n=6, ndata=6, bps=2), dict(file="image", kind="processed", n=5, ndata=4, bps=2),
+                 dict(file="image", kind="signal", n=6, ndata=24, bps=8), dict(file="image", kind="signal", n=5, ndata=16, bps=8)])
+    ptasks = [dict(level=lv, seed=chk.seed + 900 + i, img=img, k=k, rpc=rpc) for i, (lv, img, k, rpc) in enumerate(
+        [("1.5", 0, 4, 1024), ("1.1", 1, 2, 1024), ("1.5", 1, 4, 3), ("1.1", 0, 5, 6), ("1.5", 0, 1, 2), ("1.5", 0, 0, 4)])]
+    for res in checklib.pmap(partial_transfer, ptasks, chk.scratch):
+        t = res["task"]
+        chk.count(2, f"partial:{t['level']}:{t['k']}:{t['rpc']}")
+        for what, msg in res["bad"]:
+            chk.violation(f"cache:{what}", f"[{t['level']}] {msg}", {"task": t})
     results = checklib.pmap(scenario, tasks, chk.scratch)
     npois = 0
     for res in results:
